@@ -55,6 +55,21 @@ var c10DeepPatterns = []string{"a", "a/b", "a/b/c", "a/b/c/b", "!a", "!a/b", "!a
 // patterns whose tail is more than one wildcard component (used in single-pattern and pair cases)
 var c10TailPatterns = []string{"a/*/**", "*/*", "a/*/*", "!a/*/*", "!a/*/**", "*/*/**"}
 
+// names with pattern metacharacters, selected by escaped patterns
+var c10EscPatterns = []string{`a\[1\]/b/c`, `a\[1\]`, `a\[1\]/b`, `a[[]1]/b/c`, `x`, `!a\[1\]/b`, `*/d`, `a\[1\]/*/c`, `q\?/r`}
+
+func c10EscTree() fsmodel.Tree {
+	var t fsmodel.Tree
+	for i, p := range []string{"a[1]", "a[1]/b", "q?", "x"} {
+		t = append(t, fsmodel.Node{Path: p, Kind: fsmodel.Dir, Perm: 0755, Mtime: fsmodel.T0 + int64(i)})
+	}
+	for i, p := range []string{"a[1]/b/c", "a[1]/d", "q?/r", "x/y"} {
+		t = append(t, fsmodel.Node{Path: p, Kind: fsmodel.File, Perm: 0644, Mtime: fsmodel.T0 + int64(i+20), Data: fsmodel.Content(i, 3)})
+	}
+	t.Sort()
+	return t
+}
+
 func patternLists(maxLen int, pats []string) [][]string {
 	out := [][]string{nil}
 	var rec func(cur []string)
@@ -501,6 +516,12 @@ func runC10(r *evid.Run) {
 		}
 		for _, t := range trees {
 			cases = append(cases, c10Case{Tree: t, Include: l}, c10Case{Tree: t, Exclude: l})
+		}
+	}
+	// escaped metacharacters in patterns, names that contain them
+	for _, inc := range patternLists(2, c10EscPatterns) {
+		for _, exc := range patternLists(1, c10EscPatterns) {
+			cases = append(cases, c10Case{Tree: c10EscTree(), Include: inc, Exclude: exc}, c10Case{Tree: c10EscTree(), Include: exc, Exclude: inc})
 		}
 	}
 	// follow paths together with include lists (exceptions included): the followed paths are appended to the list
